@@ -175,11 +175,12 @@ def run_args(ctx: Ctx) -> bool:
     bad = []
     n = 0
     try:
-        for start_name, (lit_u, lit_t) in itertools.product(("none", "?T:=?U", "?U:=?T", "?X:=?T,?T:=?U", "?T:=?X,?X:=?U"), itertools.product(("bool", "float"), repeat=2)):
+        for start_name, (lit_u, lit_t) in itertools.product(("none", "?T:=?U", "?U:=?T", "?X:=?T,?T:=?U", "?T:=?X,?X:=?U", "?U:=?X,?X:=?T"), itertools.product(("bool", "float"), repeat=2)):
             n += 1
             vU, vT, vX = _var("?U"), _var("?T"), _var("?X")
             tys = {"bool": _closed("bool"), "float": _closed("float")}
-            start = {"none": {}, "?T:=?U": {vT: vU}, "?U:=?T": {vU: vT}, "?X:=?T,?T:=?U": {vX: vT, vT: vU}, "?T:=?X,?X:=?U": {vT: vX, vX: vU}}[start_name]
+            start = {"none": {}, "?T:=?U": {vT: vU}, "?U:=?T": {vU: vT}, "?X:=?T,?T:=?U": {vX: vT, vT: vU}, "?T:=?X,?X:=?U": {vT: vX, vX: vU},
+                     "?U:=?X,?X:=?T": {vU: vX, vX: vT}}[start_name]
             tied = start_name != "none"
 
             def mk_checker(nd, e, env):
